@@ -86,11 +86,11 @@ var nfTerms = []any{
 	some(hx.C("nf_const", bytesOf("x"))), some(hx.C("nf_prefix", bytesOf("p."))), some(hx.C("nf_prefix", bytesOf("q"))),
 }
 
-var behs = []string{"BOk", "BErr", "BPanic", "BOkPanic", "BNever", "BTwice"}
+var behs = []string{"BOk", "BErr", "BPanic", "BOkPanic", "BNever", "BTwice", "BOkBad"}
 
-func mkReg(zid int, group string, nfTerm any) (hx.T, regd) {
+func mkReg(k int64, zid int, group string, nfTerm any) (hx.T, regd) {
 	nf := nfOfTerm(nfTerm)
-	op := hx.C("OReg", hx.C("E", zid, []int64{}, []any{}), hx.C("O", bytesOf(group), nf.term))
+	op := hx.C("OReg", k, hx.C("E", zid, []int64{}, []any{}), hx.C("O", bytesOf(group), nf.term))
 	return op, regd{zid: zid, group: group, nf: nf, ms: methodsOf(zid)}
 }
 
@@ -124,7 +124,7 @@ func goodPayload(ser string, id int64, v int64) []byte {
 func ctxTermFor(m *methDesc) any {
 	if m != nil && len(m.ins) >= 1 {
 		switch id := typeIDs[m.ins[0]]; id {
-		case 1, 2, 7:
+		case 1, 2, 7, 9:
 			return hx.C("CTyp", id)
 		}
 	}
@@ -143,22 +143,22 @@ func decodesOK(ser string, data []byte, id int64) bool {
 
 // callSer builds an OCallSer op; unless allowF4, a completion function is withheld when the call
 // would be "good route and payload to a notify-shaped method" (F4, kept to dedicated cases).
-func callSer(built []regd, ser, route string, data []byte, ctx any, cb bool, beh string, allowF4 bool) hx.T {
+func callSer(k int64, built []regd, ser, route string, data []byte, ctx any, cb bool, beh string, allowF4 bool) hx.T {
 	if cb && !allowF4 && ser != "SNil" {
 		if t := target(built, route); t != nil && len(t.ins) == 2 && decodesOK(ser, data, typeIDs[t.ins[1]]) {
 			cb = false
 		}
 	}
-	return hx.C("OCallSer", ser, bytesOf(route), packBytes(data), []any{}, ctx, cb, beh)
+	return hx.C("OCallSer", k, ser, bytesOf(route), packBytes(data), []any{}, ctx, cb, beh)
 }
 
-func callDirect(built []regd, route string, arg any, ctx any, cb bool, beh string, allowF4 bool) hx.T {
+func callDirect(k int64, built []regd, route string, arg any, ctx any, cb bool, beh string, allowF4 bool) hx.T {
 	if cb && !allowF4 {
 		if t := target(built, route); t != nil && len(t.ins) == 2 {
 			cb = false
 		}
 	}
-	return hx.C("OCall", bytesOf(route), arg, ctx, cb, beh)
+	return hx.C("OCall", k, bytesOf(route), arg, ctx, cb, beh)
 }
 
 func flipCase(s string, i int) string {
@@ -224,39 +224,40 @@ func nfName(t any) string {
 func enumerateExposure(thorough bool, emit func(string, []hx.T, []string)) {
 	groups := []string{"", "grp", "_"}
 	for zid := range zoo {
+		k := int64(zid % 3)
 		for ni, nft := range nfTerms {
 			for gi, group := range groups {
 				if !thorough && gi != (zid+ni)%3 {
 					continue
 				}
-				reg, r := mkReg(zid, group, nft)
+				reg, r := mkReg(k, zid, group, nft)
 				built := []regd{r}
 				tags := []string{"nf:" + nfName(nft), "group:" + map[string]string{"": "default", "grp": "named", "_": "inner"}[group]}
 				for lo := 0; lo < len(r.ms); lo += 2 {
 					ops := []hx.T{reg}
 					if lo == 0 {
 						real, _ := candidates(r, 0)
-						ops = append(ops, hx.C("OHas", bytesOf(real))) // registered, not built: not exposed
+						ops = append(ops, hx.C("OHas", k, bytesOf(real))) // registered, not built: not exposed
 					}
-					ops = append(ops, hx.T{Name: "OBuild"})
+					ops = append(ops, hx.C("OBuild", k))
 					if lo == 0 {
 						g := r.groupName()
 						for _, s := range []string{"", ".", "..", g, g + ".", "." + g, "_", "_."} {
-							ops = append(ops, hx.C("OHas", bytesOf(s)))
+							ops = append(ops, hx.C("OHas", k, bytesOf(s)))
 						}
 					}
 					for i := lo; i < lo+2 && i < len(r.ms); i++ {
 						real, all := candidates(r, i)
 						for _, rt := range all {
-							ops = append(ops, hx.C("OHas", bytesOf(rt)))
+							ops = append(ops, hx.C("OHas", k, bytesOf(rt)))
 						}
-						ops = append(ops, hx.C("OArgT", bytesOf(real)))
+						ops = append(ops, hx.C("OArgT", k, bytesOf(real)))
 						m := &r.ms[i]
 						if len(m.ins) < 2 {
 							continue
 						}
 						ser := []string{"SJson", "SProto"}[(i+zid)%2]
-						ops = append(ops, callSer(built, ser, real, goodPayload(ser, msgTidOf(m), int64(i+1)), ctxTermFor(m), true,
+						ops = append(ops, callSer(k, built, ser, real, goodPayload(ser, msgTidOf(m), int64(i+1)), ctxTermFor(m), true,
 							behs[(i+ni)%len(behs)], false))
 					}
 					emit("exposure", ops, tags)
@@ -271,16 +272,17 @@ func enumerateExposure(thorough bool, emit func(string, []hx.T, []string)) {
 // undecodable payload, through CallWithSerialize and through Call (nil / foreign message too).
 // Methods that are not handler-shaped get the short list in the quick tier.
 func enumerateBehaviours(thorough bool, emit func(string, []hx.T, []string)) {
+	k := int64(0)
 	for zid := range zoo {
 		for _, ser := range []string{"SJson", "SProto"} {
-			reg, r := mkReg(zid, "g", "None")
+			reg, r := mkReg(k, zid, "g", "None")
 			built := []regd{r}
 			for i := range r.ms {
 				m := &r.ms[i]
 				if len(m.ins) < 2 {
 					continue
 				}
-				ops := []hx.T{reg, {Name: "OBuild"}}
+				ops := []hx.T{reg, hx.C("OBuild", k)}
 				rt := "g." + m.name
 				id := msgTidOf(m)
 				full := thorough || shapeOK(*m)
@@ -289,22 +291,22 @@ func enumerateBehaviours(thorough bool, emit func(string, []hx.T, []string)) {
 						break
 					}
 					v := int64(10*i + bi)
-					ops = append(ops, callSer(built, ser, rt, goodPayload(ser, id, v), ctxTermFor(m), true, beh, false))
+					ops = append(ops, callSer(k, built, ser, rt, goodPayload(ser, id, v), ctxTermFor(m), true, beh, false))
 					if thorough || bi%2 == 0 {
-						ops = append(ops, callSer(built, ser, rt, goodPayload(ser, id, v), ctxTermFor(m), false, beh, false))
+						ops = append(ops, callSer(k, built, ser, rt, goodPayload(ser, id, v), ctxTermFor(m), false, beh, false))
 					}
 					if ser == "SJson" {
-						ops = append(ops, callDirect(built, rt, hx.C("AVal", id, v), "CNil", true, beh, false))
+						ops = append(ops, callDirect(k, built, rt, hx.C("AVal", id, v), "CNil", true, beh, false))
 					}
 				}
 				if full {
-					ops = append(ops, callSer(built, ser, rt, goodPayload(ser, id, 5), "CNil", true, "BOk", false))
-					ops = append(ops, callSer(built, ser, rt, goodPayload(ser, id, 6), hx.C("CTyp", int64(2)), true, "BOk", false))
-					ops = append(ops, callSer(built, ser, rt, []byte("{"), ctxTermFor(m), true, "BOk", false))
+					ops = append(ops, callSer(k, built, ser, rt, goodPayload(ser, id, 5), "CNil", true, "BOk", false))
+					ops = append(ops, callSer(k, built, ser, rt, goodPayload(ser, id, 6), hx.C("CTyp", int64(2)), true, "BOk", false))
+					ops = append(ops, callSer(k, built, ser, rt, []byte("{"), ctxTermFor(m), true, "BOk", false))
 					if ser == "SJson" {
-						ops = append(ops, callDirect(built, rt, "ANil", ctxTermFor(m), true, "BErr", false))
-						ops = append(ops, callDirect(built, rt, hx.C("AVal", int64(11), int64(4)), ctxTermFor(m), true, "BOk", false))
-						ops = append(ops, callDirect(built, rt, hx.C("AVal", id, int64(8)), hx.C("CTyp", int64(7)), false, "BPanic", false))
+						ops = append(ops, callDirect(k, built, rt, "ANil", ctxTermFor(m), true, "BErr", false))
+						ops = append(ops, callDirect(k, built, rt, hx.C("AVal", int64(11), int64(4)), ctxTermFor(m), true, "BOk", false))
+						ops = append(ops, callDirect(k, built, rt, hx.C("AVal", id, int64(8)), hx.C("CTyp", int64(7)), false, "BPanic", false))
 					}
 				}
 				emit("behaviours", ops, []string{"ser:" + ser})
@@ -319,7 +321,7 @@ func enumerateBehaviours(thorough bool, emit func(string, []hx.T, []string)) {
 	f4 := [][2]any{{0, "g.Note"}, {11, "g.N2"}, {12, "g.P2"}, {4, "g.Ok2"}, {14, "g.R2"}, {1, "g.Note"}}
 	for i := 0; i < n && i < len(f4); i++ {
 		zid, rt := f4[i][0].(int), f4[i][1].(string)
-		reg, r := mkReg(zid, "g", "None")
+		reg, r := mkReg(k, zid, "g", "None")
 		built := []regd{r}
 		t := target(built, rt)
 		if t == nil || len(t.ins) != 2 {
@@ -331,11 +333,11 @@ func enumerateBehaviours(thorough bool, emit func(string, []hx.T, []string)) {
 			if typeIDs[t.ins[1]] == 12 {
 				ser = "SProto"
 			}
-			call = callSer(built, ser, rt, goodPayload(ser, msgTidOf(t), 3), ctxTermFor(t), true, behs[i%len(behs)], true)
+			call = callSer(k, built, ser, rt, goodPayload(ser, msgTidOf(t), 3), ctxTermFor(t), true, behs[i%len(behs)], true)
 		} else {
-			call = callDirect(built, rt, hx.C("AVal", msgTidOf(t), int64(3)), ctxTermFor(t), true, behs[i%len(behs)], true)
+			call = callDirect(k, built, rt, hx.C("AVal", msgTidOf(t), int64(3)), ctxTermFor(t), true, behs[i%len(behs)], true)
 		}
-		emit("f4", []hx.T{reg, {Name: "OBuild"}, call}, []string{"F4:notify-with-completion-function"})
+		emit("f4", []hx.T{reg, hx.C("OBuild", k), call}, []string{"F4:notify-with-completion-function"})
 	}
 }
 
@@ -347,6 +349,7 @@ func genRandom(cfg *hx.Config, idx int) ([]hx.T, []string) {
 	tags := map[string]bool{}
 	var ops []hx.T
 	var regs, built []regd
+	k := hx.Pick(r, []int64{0, 0, 1, 5})
 	register := func() {
 		zid := r.Intn(len(zoo))
 		group := ""
@@ -361,7 +364,7 @@ func genRandom(cfg *hx.Config, idx int) ([]hx.T, []string) {
 		if r.Intn(2) == 0 {
 			nft = nfTerms[r.Intn(len(nfTerms))]
 		}
-		op, rd := mkReg(zid, group, nft)
+		op, rd := mkReg(k, zid, group, nft)
 		for _, o := range regs {
 			if o.groupName() == rd.groupName() {
 				tags["group-collision"] = true
@@ -372,7 +375,7 @@ func genRandom(cfg *hx.Config, idx int) ([]hx.T, []string) {
 		tags["nf:"+nfName(nft)] = true
 	}
 	build := func() {
-		ops = append(ops, hx.T{Name: "OBuild"})
+		ops = append(ops, hx.C("OBuild", k))
 		built = append([]regd{}, regs...)
 	}
 	for i, n := 0, 1+r.Intn(3); i < n; i++ {
@@ -473,9 +476,9 @@ func genRandom(cfg *hx.Config, idx int) ([]hx.T, []string) {
 		}
 		switch p := r.Intn(100); {
 		case p < 25:
-			ops = append(ops, hx.C("OHas", bytesOf(rt)))
+			ops = append(ops, hx.C("OHas", k, bytesOf(rt)))
 		case p < 35:
-			ops = append(ops, hx.C("OArgT", bytesOf(rt)))
+			ops = append(ops, hx.C("OArgT", k, bytesOf(rt)))
 		case p < 80:
 			ser := "SJson"
 			switch q := r.Intn(100); {
@@ -507,7 +510,7 @@ func genRandom(cfg *hx.Config, idx int) ([]hx.T, []string) {
 			default:
 				tags["payload:empty"] = true
 			}
-			ops = append(ops, callSer(built, ser, rt, data, ctx, cb, beh, false))
+			ops = append(ops, callSer(k, built, ser, rt, data, ctx, cb, beh, false))
 			tags["call:"+ser] = true
 		default:
 			var arg any = "ANil"
@@ -521,10 +524,247 @@ func genRandom(cfg *hx.Config, idx int) ([]hx.T, []string) {
 				arg = hx.C("AVal", hx.Pick(r, msgTids), v)
 				tags["arg:foreign?"] = true
 			}
-			ops = append(ops, callDirect(built, rt, arg, ctx, cb, beh, false))
+			ops = append(ops, callDirect(k, built, rt, arg, ctx, cb, beh, false))
 			tags["call:direct"] = true
 		}
 		tags["beh:"+beh] = true
+	}
+	return ops, sortedTags(tags)
+}
+
+// ---- the Dispatch layer ----
+
+var protoBodies = [][]byte{nil, {0x08}, {0xff, 0xff}, {0x12, 0x05, 'a'}, {0x08, 0x80}}
+
+func helloBody(v int64) []byte {
+	b, _ := gproto.Marshal(&msgs.TestHello{I: int32(v), S: "d"})
+	return b
+}
+
+// dispTarget: the method a dispatcher over the listed collections would reach (generation aid)
+func dispTarget(built map[int64][]regd, ks []int64, route string) *methDesc {
+	for _, k := range ks {
+		if t := target(built[k], route); t != nil {
+			return t
+		}
+	}
+	return nil
+}
+
+// dispatch builds an ODispatch op; unless allowF4, a request that would be "good route and
+// payload to a notify-shaped method" is turned into a notification (F4 stays in dedicated cases)
+func dispatch(built map[int64][]regd, ks []int64, rid int64, route string, body []byte, beh string, allowF4 bool) hx.T {
+	if rid != 0 && !allowF4 && route != "" {
+		if t := dispTarget(built, ks, route); t != nil && len(t.ins) == 2 && decodesOK("SProto", body, typeIDs[t.ins[1]]) {
+			rid = 0
+		}
+	}
+	return hx.C("ODispatch", ks, rid, bytesOf(route), packBytes(body), []any{}, false, hx.C("CTyp", int64(9)), beh)
+}
+
+type dispCfg struct {
+	name string
+	regs []struct {
+		k     int64
+		zid   int
+		group string
+		nf    any
+	}
+	orders [][]int64
+}
+
+func dispCfgs() []dispCfg {
+	r1, r2, r3 := remoteZoo[0], remoteZoo[1], remoteZoo[2]
+	type rg = struct {
+		k     int64
+		zid   int
+		group string
+		nf    any
+	}
+	return []dispCfg{
+		{"one", []rg{{0, r1, "g", "None"}}, [][]int64{{0}}},
+		{"two", []rg{{0, r1, "g", "None"}, {1, r2, "g", "None"}}, [][]int64{{0, 1}, {1, 0}, {1}, {}, {0, 0}, {2, 0}}},
+		{"foreign-first", []rg{{0, r3, "g", "None"}, {1, r1, "g", some("nf_lower")}}, [][]int64{{0, 1}, {1, 0}}},
+		{"same-collection", []rg{{0, r3, "", "None"}, {0, r1, "", "None"}, {0, r2, "R01", "None"}}, [][]int64{{0}}},
+		{"local-zoo", []rg{{0, 0, "g", "None"}, {1, 12, "g", "None"}, {2, r2, "h", some("nf_camel")}}, [][]int64{{0, 1, 2}, {2, 1, 0}}},
+	}
+}
+
+// dispatch stream: collections of remote entries x dispatcher order x every route of theirs (and
+// unknown / malformed / empty ones) x request / notification x proto bodies x behaviours
+func enumerateDispatch(thorough bool, emit func(string, []hx.T, []string)) {
+	for _, cfg := range dispCfgs() {
+		var pre []hx.T
+		built := map[int64][]regd{}
+		seenK := map[int64]bool{}
+		routes := []string{"", ".", "g", "g.", "a.b.c", "g.Nope", "nog.Join", "Join", "_.Join"}
+		seenR := map[string]bool{}
+		for _, s := range routes {
+			seenR[s] = true
+		}
+		for _, rg := range cfg.regs {
+			op, rd := mkReg(rg.k, rg.zid, rg.group, rg.nf)
+			pre = append(pre, op)
+			built[rg.k] = append(built[rg.k], rd)
+			seenK[rg.k] = true
+			for _, m := range rd.ms {
+				rt := rd.groupName() + "." + rd.nf.apply(m.name)
+				if !seenR[rt] {
+					seenR[rt] = true
+					routes = append(routes, rt)
+				}
+			}
+		}
+		for k := range seenK {
+			pre = append(pre, hx.C("OBuild", k))
+		}
+		sortBuilds(pre)
+		for oi, ks := range cfg.orders {
+			for ri, rt := range routes {
+				ops := append([]hx.T{}, pre...)
+				t := dispTarget(built, ks, rt)
+				full := t != nil && len(t.ins) == 3 && (thorough || oi < 2)
+				for bi, beh := range behs {
+					if !full && bi > 0 {
+						break
+					}
+					v := int64(10*ri + bi + 1)
+					ops = append(ops, dispatch(built, ks, int64(100+bi), rt, helloBody(v), beh, false))
+					if bi%2 == 0 || thorough {
+						ops = append(ops, dispatch(built, ks, 0, rt, helloBody(v), beh, false))
+					}
+				}
+				for pi, body := range protoBodies {
+					if !thorough && pi%2 == 1 && t == nil {
+						continue
+					}
+					ops = append(ops, dispatch(built, ks, int64(200+pi), rt, body, "BOk", false))
+				}
+				ops = append(ops, dispatch(built, ks, 0, rt, protoBodies[2], "BOk", false))
+				emit("dispatch", ops, []string{"dispatch:" + cfg.name})
+			}
+		}
+	}
+	// F4 through Dispatch: a REQUEST addressed to a notify-shaped method (dedicated small cases)
+	n := 1
+	if thorough {
+		n = 3
+	}
+	f4 := [][2]any{{remoteZoo[0], "g.Note"}, {remoteZoo[1], "g.Quiet"}, {remoteZoo[0], "g.Note"}}
+	for i := 0; i < n; i++ {
+		op, rd := mkReg(0, f4[i][0].(int), "g", "None")
+		built := map[int64][]regd{0: {rd}}
+		emit("f4", []hx.T{op, hx.C("OBuild", int64(0)), dispatch(built, []int64{0}, int64(31+i), f4[i][1].(string), helloBody(3), behs[i], true)},
+			[]string{"F4:notify-with-completion-function"})
+	}
+}
+
+// builds last, registrations first (stable)
+func sortBuilds(ops []hx.T) {
+	var a, b []hx.T
+	for _, o := range ops {
+		if o.Name == "OBuild" {
+			b = append(b, o)
+		} else {
+			a = append(a, o)
+		}
+	}
+	// deterministic order of the builds
+	for i := 0; i < len(b); i++ {
+		for j := i + 1; j < len(b); j++ {
+			if b[j].Int(0) < b[i].Int(0) {
+				b[i], b[j] = b[j], b[i]
+			}
+		}
+	}
+	copy(ops, append(a, b...))
+}
+
+// random dispatch-flavoured case: 1-3 collections of mostly remote entries, a dispatcher order per
+// request, real / mutated / unknown routes, proto / malformed / random bodies
+func genDispatch(cfg *hx.Config) ([]hx.T, []string) {
+	r := cfg.Rng
+	tags := map[string]bool{"dispatch:random": true}
+	var ops []hx.T
+	regs := map[int64][]regd{}
+	built := map[int64][]regd{}
+	ncol := int64(1 + r.Intn(3))
+	var all []regd
+	for i, n := 0, 1+r.Intn(4); i < n; i++ {
+		k := r.Int63n(ncol)
+		zid := remoteZoo[r.Intn(len(remoteZoo))]
+		if r.Intn(5) == 0 {
+			zid = r.Intn(len(zoo))
+		}
+		group := hx.Pick(r, []string{"g", "g", "h", "", "_"})
+		nft := nfTerms[0]
+		if r.Intn(3) == 0 {
+			nft = nfTerms[r.Intn(len(nfTerms))]
+		}
+		op, rd := mkReg(k, zid, group, nft)
+		ops = append(ops, op)
+		regs[k] = append(regs[k], rd)
+		all = append(all, rd)
+	}
+	for k := int64(0); k < ncol; k++ {
+		if r.Intn(8) > 0 {
+			ops = append(ops, hx.C("OBuild", k))
+			built[k] = append([]regd{}, regs[k]...)
+		} else {
+			tags["dispatch:unbuilt-collection"] = true
+		}
+	}
+	for i, n := 0, 3+r.Intn(8); i < n; i++ {
+		var ks []int64
+		for j, m := 0, r.Intn(4); j < m; j++ {
+			ks = append(ks, r.Int63n(ncol))
+		}
+		if len(ks) == 0 && r.Intn(4) > 0 {
+			ks = []int64{0}
+		}
+		rd := all[r.Intn(len(all))]
+		m := rd.ms[r.Intn(len(rd.ms))]
+		rt := rd.groupName() + "." + rd.nf.apply(m.name)
+		switch p := r.Intn(100); {
+		case p < 65:
+			tags["route:real"] = true
+		case p < 75:
+			rt = flipCase(rt, r.Intn(len(rt)))
+			tags["route:mutated"] = true
+		case p < 85:
+			rt = hx.Pick(r, []string{"g.Nope", "zz.Join", "Join", "g"})
+			tags["route:unknown"] = true
+		case p < 93:
+			rt = hx.Pick(r, []string{"a.b.c", "g.Join.", "..", "g..Join"})
+			tags["route:3-segments"] = true
+		default:
+			rt = ""
+			tags["route:empty"] = true
+		}
+		rid := int64(1 + r.Intn(1000))
+		if r.Intn(3) == 0 {
+			rid = 0
+		}
+		var body []byte
+		switch p := r.Intn(100); {
+		case p < 65:
+			body = helloBody(int64(r.Intn(100) - 2))
+			tags["payload:encoded"] = true
+		case p < 80:
+			body = hx.Pick(r, badProto)
+			tags["payload:malformed"] = true
+		case p < 92:
+			body = make([]byte, r.Intn(10))
+			for j := range body {
+				body[j] = byte(r.Intn(256))
+			}
+			tags["payload:random"] = true
+		default:
+			tags["payload:empty"] = true
+		}
+		beh := hx.Pick(r, behs)
+		tags["beh:"+beh] = true
+		ops = append(ops, dispatch(built, ks, rid, rt, body, beh, false))
 	}
 	return ops, sortedTags(tags)
 }
